@@ -176,9 +176,14 @@ def build_nls(prog, style):
 
 
 def build(cfg, dtype, style):
+    import torch
     if cfg["cls"] == "NLS":
-        return build_nls(cfg["sys"], style)
-    return build_lin(cfg["cls"], cfg["sys"], cfg["rank"], dtype, c_none=cfg.get("c_none", False))
+        obj = build_nls(cfg["sys"], style)
+    else:
+        obj = build_lin(cfg["cls"], cfg["sys"], cfg["rank"], dtype, c_none=cfg.get("c_none", False))
+    # the caller's own time grid (plain attribute of the harness, not a buffer of the module)
+    object.__setattr__(obj, "_verif_time_grid", torch.arange(64, dtype=torch.int64))
+    return obj
 
 
 def read_lin(obj):
@@ -222,7 +227,19 @@ def apply_call(obj, cfg, call, dtype, rng, refset, readlin=True):
                 obj.reset(v)
         elif op == "SetSystime":
             v = call["v"][0]
-            obj.systime = v if rng.random() < 0.5 else torch.tensor(v)
+            r3 = rng.random()
+            if r3 < 0.35:
+                obj.systime = v
+            elif r3 < 0.6:
+                obj.systime = torch.tensor(v)
+            else:
+                # an element of the caller's own time grid (the idiom `sys.systime = time[k]`): the system must keep
+                # a copy, otherwise later calls write into the caller's grid and re-assigning time[k] sets a wrong time
+                grid = getattr(obj, "_verif_time_grid", None)
+                if grid is None or v >= len(grid) or v < 0:
+                    obj.systime = torch.tensor(v)
+                else:
+                    obj.systime = grid[v]
         elif op == "SetRefpoint":
             if cls == "LTI":
                 if rng.random() < 0.5:
